@@ -26,8 +26,8 @@ func (x fp2) mul(y fp2) fp2 {
 	bc := new(big.Int).Mul(x.b, y.a)
 	return f2(ac.Sub(ac, bd), ad.Add(ad, bc))
 }
-func (x fp2) isZero() bool    { return x.a.Sign() == 0 && x.b.Sign() == 0 }
-func (x fp2) eq(y fp2) bool   { return x.a.Cmp(y.a) == 0 && x.b.Cmp(y.b) == 0 }
+func (x fp2) isZero() bool  { return x.a.Sign() == 0 && x.b.Sign() == 0 }
+func (x fp2) eq(y fp2) bool { return x.a.Cmp(y.a) == 0 && x.b.Cmp(y.b) == 0 }
 func (x fp2) inv() fp2 { // 1/(a+bi) = (a-bi)/(a^2+b^2)
 	n := new(big.Int).Mul(x.a, x.a)
 	n.Add(n, new(big.Int).Mul(x.b, x.b))
